@@ -185,6 +185,25 @@ def check_cds(spec, ctx):
                 ok = len(p) == len(exp) and all(ch in opts for ch, opts in zip(p, exp))
                 ctx.true("translate[%s,trunc=%d,strict=%d]" % (table, truncate, strict), ok, {"got": p, "expected": ["".join(sorted(o)) for o in exp]})
                 ctx.true("translate_type", isinstance(prot, Sequence), type(prot).__name__)
+    # (4b) the same twelve questions asked of ONE object, in an order that is part of the case: the protein is a function of
+    # the codons and the arguments, not of which table / flags were asked first
+    combos = [(t_, tr_, s_) for t_ in ("DEFAULT", "STANDARD", "PROKARYOTE") for tr_ in (False, True) for s_ in (True, False)]
+    order = spec.get("translate_order") or list(range(len(combos)))[::-1]
+    shared = fresh()
+    for i_ in order:
+        table, truncate, strict = combos[i_ % len(combos)]
+        exp = model_translate(mseqs, table, truncate, strict)
+        try:
+            p = str(shared.translate(truncate_at_in_frame_stop=truncate, translation_table=TranslationTable[table], strict=strict))
+        except ValueError as e:
+            ctx.true("translate_same_object_refused[%s,%d,%d]" % (table, truncate, strict), exp == "ValueError", repr(e)[:100])
+            continue
+        if exp == "ValueError":
+            ctx.fail("translate_same_object_strict_accepted_ambiguous[%s]" % table, p)
+            continue
+        ok = len(p) == len(exp) and all(ch in opts for ch, opts in zip(p, exp))
+        ctx.true("translate_same_object[%s,trunc=%d,strict=%d]" % (table, truncate, strict), ok,
+                 {"got": p, "expected": ["".join(sorted(o)) for o in exp], "order": order})
     if mseqs:
         if mseqs[0] in STARTS["STANDARD"] - {"ATG"}:
             ctx.label("alt_start_codon")
@@ -280,6 +299,9 @@ def strat_cds(draw, tier="quick"):
         out.append([bl[i][0], None])
         out.append([None, bl[i][1]])
     sp["windows"] = out
+    # (a list with repetitions rather than st.permutations: the latter is rejected by Hypothesis' byte-string provider, which
+    # would starve the coverage-guided leg that drives this same strategy)
+    sp["translate_order"] = draw(st.lists(st.integers(0, 11), min_size=6, max_size=16))
     return sp
 
 
